@@ -85,7 +85,7 @@ iovec_aggregate_ex(iovec_p iov, size_t iov_cnt, size_t data_size, size_t off,
 
 	/* Do not send packet fragment as last packet in buf. */
 	if (0 == iov_cnt || 0 == ret_cnt || 0 == data_size ||
-	    (iov[0].iov_len - off) >= data_size ||
+	    (iov[0].iov_len - off) > data_size ||
 	    (1 == iov_cnt && 0 == (iov[0].iov_len - off))) {
 		if (NULL != reminder_data_size_ret) {
 			(*reminder_data_size_ret) = data_size;
